@@ -666,21 +666,24 @@ mod if_alloc {
             let mut_self: &mut GenericSharedSemaphoreAcquireFuture<MutexType> =
                 unsafe { Pin::get_unchecked_mut(self) };
 
-            let semaphore = mut_self.semaphore.take().expect(
-                "polled GenericSharedSemaphoreAcquireFuture after completion",
-            );
-
+            // The handle stays inside the future while the semaphore is
+            // called: the call can unwind (a `Waker::clone` that panics), and
+            // `Drop` needs the handle to unlink the wait node.
             let poll_res = unsafe {
+                let semaphore = mut_self.semaphore.as_ref().expect(
+                    "polled GenericSharedSemaphoreAcquireFuture after completion",
+                );
                 let mut semaphore_state = semaphore.state.lock();
                 semaphore_state.try_acquire(&mut mut_self.wait_node, cx)
             };
 
             match poll_res {
-                Poll::Pending => {
-                    mut_self.semaphore.replace(semaphore);
-                    Poll::Pending
-                }
+                Poll::Pending => Poll::Pending,
                 Poll::Ready(()) => {
+                    let semaphore = mut_self
+                        .semaphore
+                        .take()
+                        .expect("the handle is still inside the future");
                     let to_release = match mut_self.auto_release {
                         true => mut_self.wait_node.required_permits,
                         false => 0,
